@@ -1,6 +1,7 @@
 CONSTANTS
   MaxConn = 2
   MaxSteps = 9
+  UseNames = FALSE
   GenMode = TRUE
 SPECIFICATION MSpec
 VIEW mview
